@@ -188,6 +188,42 @@ fn sswu_check<S: Suite>(ctx: &Ctx, ta: &TAlpha<S>, min_classes: usize, per_class
             Ok(leak(&ta.class[i as usize]))
         },
     );
+    // call histories: the map is a function of t alone - the same t again, its negative (same t^2, same x, opposite y), and
+    // the previous alphabet member in between, all on one thread of their own, each compared with the reference
+    ctx.sweep(
+        &format!("{}.sswu_history", name),
+        ta.ts.len() as u64,
+        |i| json!({"t": S::showk(&ta.ts[i as usize]), "class": ta.class[i as usize], "calls": "t, t, -t, t, t', -t, -t on one fresh thread (t' = previous alphabet member)"}),
+        |i| {
+            let t = ta.ts[i as usize].clone();
+            let nt = t.neg();
+            let other = ta.ts[(i as usize + ta.ts.len() - 1) % ta.ts.len()].clone();
+            let wants = [S::ref_sswu(&t).0, S::ref_sswu(&nt).0, S::ref_sswu(&other).0];
+            let seq: [usize; 7] = [0, 0, 1, 0, 2, 1, 1];
+            let args = [t.clone(), nt, other];
+            let res = std::thread::spawn(move || -> Vec<Pt<S::K>> {
+                seq.iter()
+                    .map(|&k| {
+                        let (x, y, z) = S::raw_of(&S::lib_sswu(&args[k]));
+                        if z.is_zero() {
+                            Pt::Inf
+                        } else {
+                            pt_of_jac(&x, &y, &z)
+                        }
+                    })
+                    .collect()
+            })
+            .join()
+            .map_err(|_| Fail::new(format!("{}: osswu_map panicked in a repeated call", name)))?;
+            for (j, &k) in seq.iter().enumerate() {
+                if res[j] != wants[k] {
+                    return Err(Fail::new(format!("{}: osswu_map differs from RFC 9380 on call #{} of the history t, t, -t, t, t', -t, -t (argument {})", name, j + 1, ["t", "-t", "t'"][k])));
+                }
+            }
+            crate::infra::bump(6);
+            Ok(if t.is_zero() { "" } else { "history" })
+        },
+    );
     // constants
     ctx.sweep(
         &format!("{}.sswu_constants", name),
@@ -252,6 +288,6 @@ pub fn run(ctx: &Ctx) -> (&'static str, &'static str) {
     ctx.assume("RFC 9380 constants A', B', Z transcribed into the reference model; 'first candidate whose right-hand side is a square' and sgn0 evaluated on big integers");
     (
         "exploration",
-        "t alphabet: 0, +-1, +-2, (q+-1)/2, the exceptional roots +-sqrt(-1/Z) (G1), Fq-embedded and purely imaginary elements (G2), and >= 8 (quick) / 64 (thorough) members of EVERY class of the optimized algorithm's case split, computed by the reference model: G1 (which candidate is square) x sgn0(t); G2 the 8 values of g(x1)^((q^2-1)/8) in mu_8 (4 root-of-unity cases when g(x1) is square, 4 eta cases otherwise) x sgn0(t); the run is a machinery failure if a class is short; plus a seeded tail; each t compared with RFC map_to_curve_simple_swu evaluated on big integers",
+        "t alphabet: 0, +-1, +-2, (q+-1)/2, the exceptional roots +-sqrt(-1/Z) (G1), Fq-embedded and purely imaginary elements (G2), and >= 8 (quick) / 64 (thorough) members of EVERY class of the optimized algorithm's case split, computed by the reference model: G1 (which candidate is square) x sgn0(t); G2 the 8 values of g(x1)^((q^2-1)/8) in mu_8 (4 root-of-unity cases when g(x1) is square, 4 eta cases otherwise) x sgn0(t); the run is a machinery failure if a class is short; plus a seeded tail; each t compared with RFC map_to_curve_simple_swu evaluated on big integers; for every t the call history t, t, -t, t, t', -t, -t on a fresh thread, every call compared with the reference",
     )
 }
